@@ -9,13 +9,23 @@ namespace IbcVerif.C27
 open IbcVerif.Localhost
 open IbcVerif.WasmStore (Bytes KV)
 
+/-- `heightGT` is `Height.GT`: greater revision number, or equal revision number and greater height. -/
+theorem heightGT_spec (a b : Ht) :
+    heightGT a b = true ↔ a.1 > b.1 ∨ (a.1 = b.1 ∧ a.2 > b.2) := by
+  simp [heightGT]
+
 /-- **Membership ⇔ sentinel proof ∧ two-element path ∧ the store holds exactly that value at the key**
-(`path[1]`; the first element, the store prefix, is ignored). For every store, proof, path and value.
+(`path[1]`; the first element, the store prefix, is ignored) ∧ the proof height is not above the chain's
+own height (guard added by /repo fix eba1f77; `heightGT` = `Height.GT`). For every store, proof, path and value.
 (`key ≠ []`: the SDK store panics on an empty key, which no store can hold anyway.) -/
-theorem membership_iff (store : KV) (proof : Bytes) (path : Path) (value : Bytes) :
-    verifyMembership store proof path value = .ok () ↔
-      proof = sentinelProof ∧ ∃ pfx key, path = some [pfx, key] ∧ key ≠ [] ∧ store.get key = some value := by
+theorem membership_iff (store : KV) (height self : Ht) (proof : Bytes) (path : Path) (value : Bytes) :
+    verifyMembership store height self proof path value = .ok () ↔
+      heightGT height self = false ∧ proof = sentinelProof ∧ ∃ pfx key, path = some [pfx, key] ∧ key ≠ [] ∧ store.get key = some value := by
   unfold verifyMembership
+  cases hh : heightGT height self with
+  | true => simp
+  | false =>
+  simp only [Bool.false_eq_true, if_false, true_and]
   by_cases hp : proof = sentinelProof
   · subst hp
     simp only [bne_self_eq_false, Bool.false_eq_true, if_false, true_and]
@@ -49,10 +59,14 @@ theorem membership_iff (store : KV) (proof : Bytes) (path : Path) (value : Bytes
     simp [this, hp]
 
 /-- **Non-membership ⇔ sentinel proof ∧ two-element path ∧ the key is absent from the store.** -/
-theorem nonmembership_iff (store : KV) (proof : Bytes) (path : Path) :
-    verifyNonMembership store proof path = .ok () ↔
-      proof = sentinelProof ∧ ∃ pfx key, path = some [pfx, key] ∧ key ≠ [] ∧ store.get key = none := by
+theorem nonmembership_iff (store : KV) (height self : Ht) (proof : Bytes) (path : Path) :
+    verifyNonMembership store height self proof path = .ok () ↔
+      heightGT height self = false ∧ proof = sentinelProof ∧ ∃ pfx key, path = some [pfx, key] ∧ key ≠ [] ∧ store.get key = none := by
   unfold verifyNonMembership
+  cases hh : heightGT height self with
+  | true => simp
+  | false =>
+  simp only [Bool.false_eq_true, if_false, true_and]
   by_cases hp : proof = sentinelProof
   · subst hp
     simp only [bne_self_eq_false, Bool.false_eq_true, if_false, true_and]
@@ -81,34 +95,36 @@ theorem nonmembership_iff (store : KV) (proof : Bytes) (path : Path) :
     simp [this, hp]
 
 /-- Membership and non-membership of the same key can never both verify (no state satisfies both). -/
-theorem membership_excludes_nonmembership (store : KV) (p p' : Bytes) (pfx pfx' key value : Bytes)
-    (h : verifyMembership store p (some [pfx, key]) value = .ok ()) :
-    verifyNonMembership store p' (some [pfx', key]) ≠ .ok () := by
+theorem membership_excludes_nonmembership (store : KV) (ht sh ht' sh' : Ht) (p p' : Bytes)
+    (pfx pfx' key value : Bytes)
+    (h : verifyMembership store ht sh p (some [pfx, key]) value = .ok ()) :
+    verifyNonMembership store ht' sh' p' (some [pfx', key]) ≠ .ok () := by
   rw [membership_iff] at h
-  obtain ⟨_, a, k, hk, _, hg⟩ := h
+  obtain ⟨_, _, a, k, hk, _, hg⟩ := h
   intro h'
   rw [nonmembership_iff] at h'
-  obtain ⟨_, a', k', hk', _, hg'⟩ := h'
+  obtain ⟨_, _, a', k', hk', _, hg'⟩ := h'
   simp only [Option.some.injEq, List.cons.injEq, and_true] at hk hk'
   rw [← hk.2] at hg; rw [← hk'.2] at hg'
   rw [hg] at hg'; cases hg'
 
 /-- The same equivalences through the 02-client keeper (`Keeper.VerifyMembership` /
 `Keeper.VerifyNonMembership` on a localhost client id): additionally the type must be allowed. -/
-theorem keeper_verification_iff (s : State) (proof : Bytes) (path : Path) (value : Bytes) :
-    ((step s (.kVerifyMembership proof path value)).2 = .ok ↔
-      s.allowed = true ∧ proof = sentinelProof ∧
+theorem keeper_verification_iff (s : State) (height self : Ht) (proof : Bytes) (path : Path)
+    (value : Bytes) :
+    ((step s (.kVerifyMembership height self proof path value)).2 = .ok ↔
+      s.allowed = true ∧ heightGT height self = false ∧ proof = sentinelProof ∧
         ∃ pfx key, path = some [pfx, key] ∧ key ≠ [] ∧ s.store.get key = some value) ∧
-    ((step s (.kVerifyNonMembership proof path)).2 = .ok ↔
-      s.allowed = true ∧ proof = sentinelProof ∧
+    ((step s (.kVerifyNonMembership height self proof path)).2 = .ok ↔
+      s.allowed = true ∧ heightGT height self = false ∧ proof = sentinelProof ∧
         ∃ pfx key, path = some [pfx, key] ∧ key ≠ [] ∧ s.store.get key = none) := by
   constructor
   · rw [← membership_iff]
     cases ha : s.allowed <;> simp only [step, route, ha, statusActive] <;>
-      cases verifyMembership s.store proof path value <;> simp [resOf]
+      cases verifyMembership s.store height self proof path value <;> simp [resOf]
   · rw [← nonmembership_iff]
     cases ha : s.allowed <;> simp only [step, route, ha, statusActive] <;>
-      cases verifyNonMembership s.store proof path <;> simp [resOf]
+      cases verifyNonMembership s.store height self proof path <;> simp [resOf]
 
 /-- is this op an attempt to create / initialise / update / upgrade / recover the localhost client
 (through the module or through the 02-client keeper)? -/
@@ -156,29 +172,34 @@ theorem history_state (s : State) (ops : List Op) :
 
 /-- **Over all histories**: after any history, a membership verification succeeds exactly when the
 store *at that moment* holds the value, a non-membership verification exactly when the key is absent. -/
-theorem history_verification (s : State) (ops : List Op) (proof : Bytes) (path : Path) (value : Bytes) :
+theorem history_verification (s : State) (ops : List Op) (height self : Ht) (proof : Bytes) (path : Path)
+    (value : Bytes) :
     let s' := (run s ops).1
-    ((step s' (.verifyMembership proof path value)).2 = .ok ↔
-      proof = sentinelProof ∧ ∃ pfx key, path = some [pfx, key] ∧ key ≠ [] ∧ s'.store.get key = some value) ∧
-    ((step s' (.verifyNonMembership proof path)).2 = .ok ↔
-      proof = sentinelProof ∧ ∃ pfx key, path = some [pfx, key] ∧ key ≠ [] ∧ s'.store.get key = none) := by
+    ((step s' (.verifyMembership height self proof path value)).2 = .ok ↔
+      heightGT height self = false ∧ proof = sentinelProof ∧ ∃ pfx key, path = some [pfx, key] ∧ key ≠ [] ∧ s'.store.get key = some value) ∧
+    ((step s' (.verifyNonMembership height self proof path)).2 = .ok ↔
+      heightGT height self = false ∧ proof = sentinelProof ∧ ∃ pfx key, path = some [pfx, key] ∧ key ≠ [] ∧ s'.store.get key = none) := by
   intro s'
   constructor
   · rw [← membership_iff]; simp only [step]
-    cases verifyMembership s'.store proof path value <;> simp [resOf]
+    cases verifyMembership s'.store height self proof path value <;> simp [resOf]
   · rw [← nonmembership_iff]; simp only [step]
-    cases verifyNonMembership s'.store proof path <;> simp [resOf]
+    cases verifyNonMembership s'.store height self proof path <;> simp [resOf]
 
 /-! ### non-vacuity -/
 
 example :
     let s : State := ⟨[([107], [5])], true⟩
-    run s [.verifyMembership [1] (some [[105], [107]]) [5], .verifyMembership [1] (some [[105], [107]]) [6],
-           .verifyNonMembership [1] (some [[105], [107]]), .verifyNonMembership [1] (some [[105], [108]]),
-           .verifyMembership [2] (some [[105], [107]]) [5], .kUpdate, .kCreate, .envDelete [107],
-           .kVerifyNonMembership [1] (some [[105], [107]])]
+    run s [.verifyMembership (1, 9) (1, 9) [1] (some [[105], [107]]) [5],
+           .verifyMembership (0, 99) (1, 9) [1] (some [[105], [107]]) [6],
+           .verifyNonMembership (1, 9) (1, 9) [1] (some [[105], [107]]),
+           .verifyNonMembership (1, 3) (1, 9) [1] (some [[105], [108]]),
+           .verifyMembership (1, 9) (1, 9) [2] (some [[105], [107]]) [5], .kUpdate, .kCreate, .envDelete [107],
+           .kVerifyNonMembership (1, 9) (1, 9) [1] (some [[105], [107]]),
+           .verifyMembership (1, 10) (1, 9) [1] (some [[105], [107]]) [5],
+           .verifyNonMembership (2, 0) (1, 9) [1] (some [[105], [108]])]
       = (⟨[], true⟩, [.ok, .err .failedMembership, .err .failedNonMembership, .ok, .err .invalidProof,
-           .err .updateClientFailed, .err .invalidClientType, .ok, .ok]) := by
+           .err .updateClientFailed, .err .invalidClientType, .ok, .ok, .err .invalidHeight, .err .invalidHeight]) := by
   decide
 
 end IbcVerif.C27
